@@ -39,9 +39,10 @@ theorem feed_cons_none (f : Bytes) (fs : List Bytes) (chunks : List ChunkOffset)
     (hd : CR.drain chunks (buf ++ f) adj (some (off + f.length, size - f.length, rl)) =
       (its, st', false)) (hreq : st'.req = none) :
     CR.feed (f :: fs) ⟨chunks, buf, adj, some (off, size, rl)⟩ = FeedRes.runDone its st' := by
+  have hclip : clipFrag size f = f := by unfold clipFrag; rw [if_neg (by omega)]
   rw [CR.feed]
   dsimp only
-  rw [if_neg (by omega), hd]
+  rw [hclip, hd]
   simp [hreq]
 
 theorem feed_cons_some (f : Bytes) (fs : List Bytes) (chunks : List ChunkOffset) (buf : Bytes)
@@ -53,9 +54,10 @@ theorem feed_cons_some (f : Bytes) (fs : List Bytes) (chunks : List ChunkOffset)
       | FeedRes.runDone its2 st2 => FeedRes.runDone (its ++ its2) st2
       | FeedRes.bodyDone its2 st2 => FeedRes.bodyDone (its ++ its2) st2
       | FeedRes.stop its2 => FeedRes.stop (its ++ its2) := by
+  have hclip : clipFrag size f = f := by unfold clipFrag; rw [if_neg (by omega)]
   rw [CR.feed]
   dsimp only
-  rw [if_neg (by omega), hd]
+  rw [hclip, hd]
   simp only [hreq, Bool.false_eq_true, if_false]
   cases CR.feed fs st' <;> rfl
 
